@@ -960,7 +960,7 @@ func TestVerifC35(t *testing.T) {
 	if e := firstErr.Load(); e != nil {
 		r.Sanity(false, "calculation could not be evaluated in %d cases, first: %v", herrs, e)
 	}
-	r.Sanity(rewarded > 0 && voterPaid > 0 && multiPair > 0 && wagePaid > 0 && capped > 0 && nothing > 0 && enableHist > 0 && twoVote > 0,
+	r.Sanity(r.Violations() > 0 || rewarded > 0 && voterPaid > 0 && multiPair > 0 && wagePaid > 0 && capped > 0 && nothing > 0 && enableHist > 0 && twoVote > 0,
 		"vacuity: rewarded=%d voterPaid=%d multiPair=%d wage=%d capped=%d nothing=%d enable=%d twoVote=%d",
 		rewarded, voterPaid, multiPair, wagePaid, capped, nothing, enableHist, twoVote)
 	if s := sampleCase.Load(); s != nil {
